@@ -821,6 +821,11 @@ rv = .false.
             node.options.F_abstract_interface_subprogram_template, fmt
         )
         entry = fileinfo.f_abstract_interface.get(name)
+        if entry is not None and str(entry[2]) != str(arg):
+            # Overloaded functions may have the same argument name
+            # for different function pointers.
+            name = name + fmt.function_suffix
+            entry = fileinfo.f_abstract_interface.get(name)
         if entry is None:
             fileinfo.f_abstract_interface[name] = (node, fmt, arg)
         return name
